@@ -200,7 +200,7 @@ def lo_snp_scenario(rng, k, ns, length, nsites, tries=100):
     return None
 
 
-def lo_indel_scenario(rng, k, ns, length, nind, tries=100):
+def lo_indel_scenario(rng, k, ns, length, nind, tries=100, tandem=False):
     """ancestor + planted insertions/deletions (length 1..10 < k, >= 4k apart and from the ends), carrier sets"""
     for _ in range(tries):
         anc = gen.rand_seq(rng, length)
@@ -223,8 +223,12 @@ def lo_indel_scenario(rng, k, ns, length, nind, tries=100):
             ln = rng.randint(1, min(10, k - 1))
             kind = rng.choice(["ins", "del"])
             carriers = set(rng.sample(range(ns), rng.randint(1, ns - 1)))
+            if tandem:
+                # the inserted bases copy the bases just before the insertion point (run extension /
+                # tandem duplication), or one copy of such a unit is deleted: placement is ambiguous
+                ln = rng.choice([1, 1, 2, 3])
             if kind == "ins":
-                seq = gen.rand_seq(rng, ln)
+                seq = anc[p - ln:p] if tandem else gen.rand_seq(rng, ln)
                 long = carriers                     # carriers have the extra bases
             else:
                 seq = anc[p:p + ln]
@@ -248,5 +252,5 @@ def lo_indel_scenario(rng, k, ns, length, nind, tries=100):
         # pairwise through canonical k-1-mers shared at inconsistent "neighbourhoods" is too strict to express
         # with shifted coordinates, so require: every sample on its own has unique (k-1)-mers on both strands
         ok = all(mers_unique_per_position([[{"seq": r["seq"], "off": 0, "rev": False}] for r in recs][:1], k - 1) for recs in samples)
-        return {"ancestor": anc, "planted": inds, "samples": samples, "k": k, "pre_strict": ok}
+        return {"ancestor": anc, "planted": inds, "samples": samples, "k": k, "pre_strict": ok, "stratum": "tandem" if tandem else "generic"}
     return None
